@@ -245,3 +245,9 @@ func (r *RS) Notify(node.NotifyRequest) (node.NotifyCloser, error) {
 func (r *RS) Peek(*node.Selection, interface{}) interface{}   { return r.Data }
 func (r *RS) Context(sel *node.Selection) context.Context     { return sel.Context }
 func (r *RS) Release(*node.Selection)                         {}
+
+// NewRSList returns a reference-store node standing for the list `list` whose
+// entries are held in holder[list.Name] (holder is the content of the list's parent).
+func NewRSList(parent *Node, list *Node, holder Tree) *RS {
+	return &RS{Schema: parent, Data: holder, list: list}
+}
